@@ -1225,7 +1225,8 @@ fn sgr_color<'a>(mut cmds: impl Iterator<Item = &'a [u8]>, sub_params: bool) -> 
                 },
             ] {
                 [Some(r), Some(g), Some(b), None] | [_, Some(r), Some(g), Some(b)] => {
-                    Some(RGBA::new(r as u8, g as u8, b as u8, 255))
+                    let channel = |value: usize| u8::try_from(value).ok();
+                    Some(RGBA::new(channel(r)?, channel(g)?, channel(b)?, 255))
                 }
                 _ => None,
             }
